@@ -42,6 +42,10 @@ VARIANTS = [
          batch=256, scale=20.0),
     dict(dtype='float32', method='inverse', prediv=False,
          factor_dtype='float16', batch=300, scale=16.0),
+    # no clipping / a clip that does not bind: the gradient is written back
+    # without being rescaled
+    dict(dtype='float32', method='eigen', prediv=True, kl=None),
+    dict(dtype='float64', method='inverse', prediv=False, kl=1e12),
 ]
 DT = {'float32': torch.float32, 'float64': torch.float64,
       'bfloat16': torch.bfloat16, 'float16': torch.float16, None: None}
@@ -113,7 +117,8 @@ def check(arg: tuple[dict[str, Any], dict[str, Any], int]) -> str | None:
             model, skip_layers=skip, compute_method=var['method'],
             compute_eigenvalue_outer_product=var['prediv'],
             factor_dtype=DT[var.get('factor_dtype')],
-            inv_dtype=DT[var.get('inv_dtype', 'float32')], damping=0.05)
+            inv_dtype=DT[var.get('inv_dtype', 'float32')], damping=0.05,
+            kl_clip=var.get('kl', 0.001))
     out1, g1 = fb(True)
     if not same(out0, out1):
         return 'model output changed by registering K-FAC'
